@@ -703,6 +703,37 @@ for kind in ("point", "sdh", "crack"):
             chk.violation(f"{kind}:grid-caller-edit:grid", f"make_angles_grid({nang}) after a caller edited an earlier result is not the documented grid",
                           dict(numangles=nang, got_inc=np.asarray(g2_[0]), got_out=np.asarray(g2_[1])), failing_input_found=True)
 
+# ---- history: a matrix request that RAISES (an unknown key caught by the caller), then ordinary calls on 2-D angle arrays on
+#      the same object: they answer as a fresh object does (and so keep the symmetries of the statement)
+for kind in ("crack", "sdh", "point"):
+    f_ = 2.0e6
+    for how_ in ("single", "multi"):
+        o_ = _mk(kind)
+        outcome_ = "returned"
+        try:
+            if how_ == "single":
+                o_.as_single_freq_matrices(f_, 3, ["XX"])
+            else:
+                o_.as_multi_freq_matrices(np.array([f_]), 3, ["LL", "XX"])
+        except Exception as e_:      # noqa: BLE001
+            outcome_ = type(e_).__name__
+        inc2_, out2_ = np.array([[0.0, 1.0], [2.0, 3.0]]), np.array([[10.0, 11.0], [12.0, 13.0]])
+        got_ = o_(inc2_, out2_, f_)
+        ref_ = _mk(kind)(inc2_, out2_, f_)
+        evaluations += 2
+        nontrivial.add(("failed-matrix-request", kind, how_))
+        chk.count(history_failed_matrix_request=f"{kind}: {outcome_}")
+        sc_ = max(float(np.max(np.abs(v))) for v in ref_.values())
+        for k in ("LL", "LT", "TL", "TT"):
+            if not _same(np.asarray(got_[k]), np.asarray(ref_[k]), sc_, 1e-10):
+                chk.violation(f"{kind}:after-failed-matrix-request",
+                              f"{kind}: S_{k} on a 2-D angle array, asked after a matrix request that raised {outcome_} on the same object, "
+                              "differs from a fresh object (entry [1,0] is evaluated at the incident angle of row 0)",
+                              dict(kind=kind, key=k, frequency=f_, history=[f"as_{how_}_freq_matrices(..., to_compute with the unknown key 'XX') -> {outcome_}",
+                                                                            "obj(inc, out, f)"],
+                                   inc_theta=inc2_, out_theta=out2_, after_history=np.asarray(got_[k]), fresh=np.asarray(ref_[k])), failing_input_found=True)
+                break
+
 # ---- image-sized angle sets (every pixel x every element): the value for an angle pair does not depend on how many other
 #      pairs are evaluated in the same call nor on its position in the array (whole array vs the same pairs in small batches,
 #      reversed, and one by one at the end of the array)
